@@ -306,27 +306,23 @@ func newRNode() *rnode {
 func (rn *rnode) rinsert(topic []byte, msg *message.PublishMessage) error {
 	// If there's no more topic levels, that means we are at the matching rnode.
 	if len(topic) == 0 {
-		l := msg.Len()
+		// Retained() hands out the stored message by pointer and the receivers
+		// use it after the lock is released, so a stored message is never
+		// modified: every update gets a buffer and a message of its own.
+		buf := make([]byte, msg.Len())
 
-		// Let's reuse the buffer if there's enough space
-		if l > cap(rn.buf) {
-			rn.buf = make([]byte, l)
-		} else {
-			rn.buf = rn.buf[0:l]
-		}
-
-		if _, err := msg.Encode(rn.buf); err != nil {
+		if _, err := msg.Encode(buf); err != nil {
 			return err
 		}
 
-		// Reuse the message if possible
-		if rn.msg == nil {
-			rn.msg = message.NewPublishMessage()
-		}
+		rmsg := message.NewPublishMessage()
 
-		if _, err := rn.msg.Decode(rn.buf); err != nil {
+		if _, err := rmsg.Decode(buf); err != nil {
 			return err
 		}
+
+		rn.buf = buf
+		rn.msg = rmsg
 
 		return nil
 	}
